@@ -205,7 +205,16 @@ func c11Gen(g *hx.Gen) {
 		keyRange := g.Pick(3, 6, 20, 1000)
 		illformed := g.Chance(0.06)
 		var ops []string
+		// (fourth wave, seeded change C13-m7) a cycle may be ABANDONED with Clear before Finalise:
+		// some pushes (on both sides of the chunk size, so with and without run files written),
+		// then Clear; the sorter is empty again and the next cycle is a use cycle like any other
+		abandon := g.Chance(0.3)
+		closed := true
 		for cy := 0; cy < cycles; cy++ {
+			if abandon && closed && g.Chance(0.35) {
+				ops = c11Cycle(g, ops, chunk, ty, c11Count(g, chunk), 0, true, keyRange)
+				ops = append(ops[:len(ops)-2:len(ops)-2], "c") // pushes, Clear: no Finalise
+			}
 			cnt := c11Count(g, chunk)
 			var pulls int
 			drained := false
@@ -228,6 +237,7 @@ func c11Gen(g *hx.Gen) {
 				clear = false
 			}
 			ops = c11Cycle(g, ops, chunk, ty, cnt, pulls, clear, keyRange)
+			closed = clear || (ac && drained)
 		}
 		// rejected pushes (a value of another type): a no-op anywhere in the history, in
 		// particular when the chunk is exactly full (the next accepted Push, or Finalise, hands
